@@ -1,5 +1,6 @@
 (* C13/Properties.v — the property's clauses as theorems (statements only; proofs are in Proofs*.v). *)
-From Verif Require Import Common.Base C13.Model C13.Spec C13.Proofs1 C13.Proofs2 C13.Proofs3 C13.Proofs4 C13.Proofs5 C13.Proofs6 C13.Proofs7 C13.Proofs8 C13.Proofs9 C13.Instances.
+From Verif Require Import Common.Base C13.Model C13.Spec C13.Proofs1 C13.Proofs2 C13.Proofs3 C13.Proofs4 C13.Proofs5 C13.Proofs6 C13.Proofs7 C13.Proofs8 C13.Proofs9 C13.Proofs10 C13.Instances C13.Translated.
+From Verif Require Import Generated.C13Telemetry Generated.C13Levels.
 From Verif Require Import Generated.C13CfgSchema.
 From Coq Require Import String.
 
@@ -301,3 +302,50 @@ Theorem watchers_isolated : forall exts conf,
   Forall (fun r => fst r = conf) (fst (notify conf exts)) /\ snd (notify conf exts) = conf.
 Proof. exact notify_isolated_l. Qed.
 Print Assumptions watchers_isolated.
+
+(* a section that is nil in the typed configuration is written `key: null` in the effective
+   configuration (no omitempty) and comes back with its defaults when that is decoded: the round
+   trip also fails there (known finding C13-NIL-SECTION-RENDERED-NULL; compat excludes nil sections) *)
+Theorem encode_decode_nil_refuted : exists d v,
+  encode_o v = CMap [("grpc"%string, CNull)] /\
+  tv_get ["grpc"%string] (o_strip v) = None /\
+  tv_get ["grpc"%string] (overlay (o_strip d) (Some (encode_o v))) <> None.
+Proof. exact encode_decode_nil_refuted_l. Qed.
+Print Assumptions encode_decode_nil_refuted.
+
+(* ---- ONE theorem about the encoder, all shapes (nil pointers / interfaces, slices, arrays, maps
+        with string or TextMarshaler keys, plain and opaque TextMarshalers, omitempty, "-") ------- *)
+Theorem encoder_exact_and_redacting : forall v, x_wf v ->
+  (forall p, cv_get p (Some (encode_x v)) = option_map encode_x (x_get_vis p v)) /\
+  (forall s, In s (cv_scalars (encode_x v)) -> s = redacted \/ In s (x_plains v)).
+Proof. exact encoder_exact_and_redacting_l. Qed.
+Print Assumptions encoder_exact_and_redacting.
+
+(* Marshal fails exactly when a key that does not encode to a string is met outside skipped fields *)
+Theorem marshal_fails_iff_bad_key : forall v, marshal_x v = None <-> x_bad v = true.
+Proof. exact marshal_fails_iff_l. Qed.
+Print Assumptions marshal_fails_iff_bad_key.
+
+Theorem schema_no_arrays : array_types = [].
+Proof. exact schema_no_arrays_l. Qed.
+Print Assumptions schema_no_arrays.
+
+(* ---- translator T1 obligations: the hand-written definition equals what the Go source says now -- *)
+Theorem tel_err_is_translated : forall c,
+  telemetry_validate (c_tel_level c) (Z.of_nat (c_tel_readers c)) (negb (c_tel_views c)) =
+  match tel_err c with
+  | None => None
+  | Some ETelNoReaders => tel_lbl_readers
+  | Some ETelViews => tel_lbl_views
+  | Some _ => None
+  end.
+Proof. exact tel_err_is_translated_l. Qed.
+Print Assumptions tel_err_is_translated.
+
+Theorem tel_labels_distinct : tel_lbl_readers <> None /\ tel_lbl_views <> None /\ tel_lbl_readers <> tel_lbl_views.
+Proof. exact tel_labels_distinct_l. Qed.
+Print Assumptions tel_labels_distinct.
+
+Theorem telemetry_levels : lvl_LevelNone = (-1)%Z /\ lvl_LevelBasic = 0%Z /\ lvl_LevelNormal = 1%Z /\ lvl_LevelDetailed = 2%Z.
+Proof. exact levels_l. Qed.
+Print Assumptions telemetry_levels.
